@@ -163,6 +163,8 @@ func Generate(family string, seed int64, idx int) Scenario {
 		// instances that have been shut down
 		sc.ShutdownPhase = true
 		sc.P.PersistDelayMs = pick(r, 0, 4, 10)
+		// a slow disk: the main loop sits in StoreLogs while snapshot requests queue up behind it
+		sc.P.StoreDelayMs = pick(r, 0, 3, 6)
 		sc.WBarrier, sc.WVerify, sc.WGetConfig, sc.WAnyNode = 10, 10, 5, 40
 		sc.P.BatchApply = r.Intn(2) == 0
 		steps, end := randomSteps(r, sc.P, 6+r.Intn(10), true)
@@ -170,9 +172,11 @@ func Generate(family string, seed int64, idx int) Scenario {
 		for i := 0; i < 2+r.Intn(4); i++ {
 			t += sc.P.HeartbeatMs/2 + r.Intn(4*sc.P.HeartbeatMs)
 			n := r.Intn(sc.P.N())
+			// user snapshots in flight on the server that is being shut down (and on the leader, whose
+			// main loop is busy storing the burst)
+			steps = append(steps, Step{At: t + r.Intn(3), Act: "snapshot", N: []int{n}}, Step{At: t + 1, Act: "snapshot", N: []int{-1}})
 			if r.Intn(2) == 0 {
-				// a user snapshot in flight on the server that is being shut down
-				steps = append(steps, Step{At: t + r.Intn(3), Act: "snapshot", N: []int{n}})
+				steps = append(steps, Step{At: t + 2, Act: "shutdown-leader"})
 			}
 			steps = append(steps, Step{At: t, Act: "burst", N: []int{1 + r.Intn(6)}}, Step{At: t, Act: "transfer", N: []int{-1}}, Step{At: t + r.Intn(3), Act: "shutdown", N: []int{n}},
 				Step{At: t + sc.P.HeartbeatMs*(1+r.Intn(4)), Act: "restart", N: []int{n}})
@@ -241,6 +245,8 @@ func Generate(family string, seed int64, idx int) Scenario {
 		p.MaxAppend = pick(r, 1, 4, 64)
 		sc.Clients = 0
 		sc.Script = "longstale"
+		// nobody is restarted for the quiet tail: a restart re-reads what a server cached
+		sc.NoTailRestart = r.Intn(3) > 0
 	case "snapterm":
 		// C04/C11: a server restores a snapshot, snapshots again before any command reaches its FSM,
 		// becomes leader and has to probe a follower exactly at its snapshot boundary
